@@ -33,6 +33,20 @@ def _is_lib(fn):
     return "/rtflite/" in fn and "/verif/" not in fn
 
 
+def _in_import(frame):
+    """Is this call made while a module is being imported (a frame of importlib's machinery is on the stack)?  A thread
+    parked there holds the module's import lock: another thread needing the module waits for it - that is Python's
+    import protocol, not a schedule of library code, and only makes the run wait for a time-out."""
+    f = frame
+    for _ in range(60):
+        if f is None:
+            return False
+        if f.f_code.co_filename.startswith("<frozen importlib"):
+            return True
+        f = f.f_back
+    return False
+
+
 def _midx(name):
     return colordocs.COLORS[name][0] if name in colordocs.COLORS else -1
 
@@ -66,7 +80,33 @@ def _encode_thread(name, doc, results):
 
 
 def build_docs(docnames, tmp):
-    return {t: colordocs.build_pool_doc(d, tmpdir=os.path.join(tmp, t)) for t, d in docnames.items()}
+    """Documents of one schedule.  Documents of a shared-object family (one caller-owned RTFPage / RTFBody / RTFSubline)
+    that run in the same schedule are built on ONE such object, as a caller producing several outputs from one
+    configuration would."""
+    names = list(docnames.values())
+    page = colordocs.new_shared_page() if sum(1 for d in names if d in colordocs.SHARED_PAGE) >= 2 else None
+    sub = colordocs.new_shared_subline() if sum(1 for d in names if d in colordocs.SHARED_SUBLINE) >= 2 else None
+    body = None
+    fams = {colordocs.SHARED_FAMILY[d] for d in names if d in colordocs.SHARED_FAMILY}
+    if len(fams) == 1 and sum(1 for d in names if d in colordocs.SHARED_FAMILY) >= 2:
+        body = colordocs.new_shared_body(fams.pop())
+    return {t: colordocs.build_pool_doc(d, tmpdir=os.path.join(tmp, t), shared_page=page, shared_subline=sub, shared_body=body)
+            for t, d in docnames.items()}
+
+
+WARM_N = 200
+
+
+def warm_up():
+    """Saturate the process: one document whose cells hold WARM_N distinct LaTeX strings (bounded memo tables are full,
+    lazily built tables exist).  None of these strings occurs in a pool document."""
+    import json
+    import polars as pl
+    import rtflite as rtf
+    cmds = [c for c in json.load(open(os.path.join(os.path.dirname(os.path.abspath(__file__)), "latex682.json")))
+            if c not in ("\\alpha", "\\beta", "\\leq", "\\gamma", "\\omega", "\\zeta", "\\Xi", "\\varpi", "\\wr", "\\xi")]
+    cells = ["w%d %s z" % (i, cmds[i % len(cmds)]) for i in range(WARM_N)]
+    rtf.RTFDocument(df=pl.DataFrame({"a": cells}), rtf_title=None).rtf_encode()
 
 
 def run_gated(docnames, schedule, timeout=20.0):
@@ -135,12 +175,14 @@ def run_gated(docnames, schedule, timeout=20.0):
         shutil.rmtree(tmp, ignore_errors=True)
 
 
-def list_calls(docname):
+def list_calls(docname, warm=False):
     """The library function calls of one encode, in order: [(file, function, firstlineno)]."""
     tmp = tempfile.mkdtemp(prefix="rtflite-verif-sched-")
     os.makedirs(os.path.join(tmp, "A"), exist_ok=True)
     calls = []
     try:
+        if warm:
+            warm_up()
         doc = colordocs.build_pool_doc(docname, tmpdir=os.path.join(tmp, "A"))
 
         def tracer(frame, event, arg):
@@ -157,9 +199,12 @@ def list_calls(docname):
     return calls
 
 
-def run_preempt(docA, docB, ks, docC=None):
+def run_preempt(docA, docB, ks, docC=None, warm=False):
     """Thread A (docA) is preempted at its k-th library call (k in ks, increasing: several
-    preemptions); at each preemption the next other thread runs to completion."""
+    preemptions); at each preemption the next other thread runs to completion.  warm: the process is saturated
+    first (warm_up)."""
+    if warm:
+        warm_up()
     tmp = tempfile.mkdtemp(prefix="rtflite-verif-sched-")
     names = {"A": docA, "B": docB}
     if docC:
@@ -219,7 +264,7 @@ def run_preempt(docA, docB, ks, docC=None):
                         hit = occ[site] == kset[0][3]
                 if hit:
                     kset.pop(0)
-                    if pending:
+                    if pending and not _in_import(frame):
                         run_other(pending.pop(0))
             if code.co_name in CS_FUNCS and code.co_filename.endswith("color_service.py"):
                 return color_local("A")
